@@ -116,6 +116,7 @@ type Exec struct {
 	topFrame    *Frame
 	cfgCache    map[*ssa.Function]*cfgInfo
 	lockMode    bool
+	sectionOld  map[string]*State // state at Lock per monitor key (for section clauses)
 	sequential  bool
 	concrete    bool
 	inst        *Instance
